@@ -97,7 +97,7 @@ def run(rep, tier, seed):
     # (two layers with a two-conditional layer become possible) for And / cautious monotony
     for system, pm, lvl in [("system-w", "rc2", "L2"), ("lex_inf", "rc2", "L2")] + ([] if quick else [("system-w", "z3", "L1"), ("lex_inf", "z3", "L1")]):
         for N, M in [(2, 3)]:
-            for name, nl, qf, prop in [x for x in postulates(M, None) if x[0] in (("and", "or", "cautious-monotony") if quick else ("and", "or", "cautious-monotony", "cut", "right-weakening"))]:
+            for name, nl, qf, prop in [x for x in postulates(M, None) if x[0] in (("and", "cautious-monotony") if quick else ("and", "or", "cautious-monotony", "cut", "right-weakening"))]:
                 h = multi.MultiHarness("%s: %s/%s strict N=%d M=%d" % (name, system, pm, N, M), [dict(system=system, pm=pm, weakly=False, level=lvl)], N, M, nl, qf, prop)
                 drive.run_op(rep, h)
     # vacuity: rational monotony must FAIL for p-entailment (it is not rational)
